@@ -851,7 +851,7 @@ HMCIstaccess(accrec_t *access_rec, /* IN: access record to fill in */
         HGOTO_ERROR(DFE_ARGS, FAIL);
 
     /* validate file record id */
-    file_rec = HAatom_object(access_rec->file_id);
+    file_rec = HAfile_object(access_rec->file_id);
     if (BADFREC(file_rec) || !(file_rec->access & acc_mode))
         HGOTO_ERROR(DFE_ARGS, FAIL);
 
@@ -1355,7 +1355,7 @@ HMCcreate(int32 file_id,       /* IN: file to put chunked element in */
 
     /* clear error stack and validate file record id */
     HEclear();
-    file_rec = HAatom_object(file_id);
+    file_rec = HAfile_object(file_id);
 
     /* validate args */
     if (BADFREC(file_rec) || chk_array == NULL)
@@ -1987,7 +1987,7 @@ HMCgetdatainfo(int32 file_id, uint16 tag, uint16 ref, int32 *chk_coord, /* IN: c
     if (info_count == 0 && offsetarray != NULL && lengtharray != NULL)
         HGOTO_ERROR(DFE_ARGS, FAIL);
 
-    file_rec = HAatom_object(file_id);
+    file_rec = HAfile_object(file_id);
     if (BADFREC(file_rec))
         HGOTO_ERROR(DFE_INTERNAL, FAIL);
 
@@ -2421,7 +2421,7 @@ HMCsetMaxcache(int32 access_id, /* IN: access aid to mess with */
     (void)flags;
 
     /* Check args */
-    access_rec = HAatom_object(access_id);
+    access_rec = HAaccess_object(access_id);
     if (access_rec == NULL || maxcache < 1)
         HGOTO_ERROR(DFE_ARGS, FAIL);
 
@@ -2679,7 +2679,7 @@ HMCreadChunk(int32  access_id, /* IN: access aid to mess with */
     int          i;
 
     /* Check args */
-    access_rec = HAatom_object(access_id);
+    access_rec = HAaccess_object(access_id);
     if (access_rec == NULL)
         HGOTO_ERROR(DFE_ARGS, FAIL);
 
@@ -2687,7 +2687,7 @@ HMCreadChunk(int32  access_id, /* IN: access aid to mess with */
         HGOTO_ERROR(DFE_ARGS, FAIL);
 
     /* validate file records */
-    file_rec = HAatom_object(access_rec->file_id);
+    file_rec = HAfile_object(access_rec->file_id);
     if (BADFREC(file_rec))
         HGOTO_ERROR(DFE_INTERNAL, FAIL);
 
@@ -3053,7 +3053,7 @@ HMCwriteChunk(int32       access_id, /* IN: access aid to mess with */
     int          i;
 
     /* Check args */
-    access_rec = HAatom_object(access_id);
+    access_rec = HAaccess_object(access_id);
     if (access_rec == NULL)
         HGOTO_ERROR(DFE_ARGS, FAIL);
 
@@ -3061,7 +3061,7 @@ HMCwriteChunk(int32       access_id, /* IN: access aid to mess with */
         HGOTO_ERROR(DFE_ARGS, FAIL);
 
     /* validate file records */
-    file_rec = HAatom_object(access_rec->file_id);
+    file_rec = HAfile_object(access_rec->file_id);
     if (BADFREC(file_rec))
         HGOTO_ERROR(DFE_INTERNAL, FAIL);
 
@@ -3228,7 +3228,7 @@ HMCPwrite(accrec_t   *access_rec, /* IN: access record to mess with */
         HGOTO_ERROR(DFE_ARGS, FAIL);
 
     /* Set inputs */
-    file_rec      = HAatom_object(access_rec->file_id);
+    file_rec      = HAfile_object(access_rec->file_id);
     info          = (chunkinfo_t *)(access_rec->special_info);
     relative_posn = access_rec->posn;
     write_len     = length;
@@ -3468,7 +3468,7 @@ HMCPendaccess(accrec_t *access_rec /* IN:  access record to close */)
         HGOTO_ERROR(DFE_ARGS, FAIL);
 
     /* get file rec and special info */
-    file_rec = HAatom_object(access_rec->file_id);
+    file_rec = HAfile_object(access_rec->file_id);
     if (BADFREC(file_rec))
         HGOTO_ERROR(DFE_ARGS, FAIL);
 
